@@ -17,6 +17,8 @@ QUOTE = ["a b", "c-d", "e+f", "x/y", "q?", "p:q", "m,n", "(r)", "[s]", "{t}", "u
 SQUOTE = ["it's", "q'", "a'b"]
 DQUOTE = ['say "hi"', '"', 'a"b']
 DOT = ["a.b", "v1.2", ".", "x."]
+COLLIDE = ["Data Base", "DataBase", "data base", "Data  Base", "a b", "ab", "AB", "Ab", "A_b",
+           "x y", "xy", "x_y", "x-y", "Xy"]
 NEWLINE = ["line\nbreak", "cr\rhere"]
 BACKSLASH = ["back\\slash", "\\n"]
 KEYWORD = ["features", "constraints", "mandatory", "optional", "or", "alternative", "namespace",
@@ -38,21 +40,21 @@ NAME_CLASSES = {
     "ident": IDENT, "ident_lower": IDENT_LOWER, "quote": QUOTE, "squote": SQUOTE,
     "dquote": DQUOTE, "dot": DOT, "newline": NEWLINE, "backslash": BACKSLASH,
     "keyword": KEYWORD, "astword": ASTWORD, "digit": DIGIT, "under": UNDER,
-    "nonascii": NONASCII, "xmlhard": XMLHARD, "afm_word": AFM_WORD,
+    "nonascii": NONASCII, "xmlhard": XMLHARD, "afm_word": AFM_WORD, "collide": COLLIDE,
 }
 
 # which name classes each fragment's quantifier admits
 FRAG_NAME_CLASSES = {
-    "uvl": ["ident", "ident_lower", "quote", "squote", "keyword", "astword", "digit", "under",
+    "uvl": ["ident", "ident_lower", "collide", "quote", "squote", "keyword", "astword", "digit", "under",
             "nonascii", "backslash"],
-    "json": ["ident", "ident_lower", "quote", "squote", "dquote", "dot", "newline", "backslash",
+    "json": ["ident", "ident_lower", "collide", "quote", "squote", "dquote", "dot", "newline", "backslash",
              "keyword", "astword", "digit", "under", "nonascii", "xmlhard"],
     "afm": ["afm_word"],
-    "fide": ["ident", "ident_lower", "quote", "squote", "dquote", "dot", "backslash", "keyword",
+    "fide": ["ident", "ident_lower", "collide", "quote", "squote", "dquote", "dot", "backslash", "keyword",
              "astword", "digit", "under", "nonascii", "xmlhard"],
-    "glencoe": ["ident", "ident_lower", "quote", "squote", "dquote", "dot", "newline",
+    "glencoe": ["ident", "ident_lower", "collide", "quote", "squote", "dquote", "dot", "newline",
                 "backslash", "keyword", "astword", "digit", "under", "nonascii", "xmlhard"],
-    "whole": ["ident", "ident_lower", "quote", "squote", "keyword", "astword", "digit", "under",
+    "whole": ["ident", "ident_lower", "collide", "quote", "squote", "keyword", "astword", "digit", "under",
               "nonascii"],
     "plain": ["ident"],
 }
@@ -145,7 +147,8 @@ def _uvl_scalar(rng, strings):
     if k < 0.45:
         return rng.choice([0, 1, 2, 7, 10, 42, 100, 65535, 123456789])
     if k < 0.65:
-        return rng.choice([0.5, 1.5, 2.25, 3.0, 10.0, 0.125, 99.9, 1234.5678])
+        return rng.choice([0.5, 1.5, 2.25, 3.0, 10.0, 0.125, 99.9, 1234.5678, 0.1234567,
+                           99.9999999, 3.141592653589793, 100000.5, 0.000125])
     return rng.choice(strings)
 
 
@@ -354,6 +357,15 @@ def gen_expr(rng, spec, namelist, depth, cfg, costly=None):
             gen_expr(rng, spec, namelist, depth - 1, cfg, costly)]
 
 
+def gen_nnf(rng, namelist, depth, with_not=True):
+    """Formula already in negation normal form: AND / OR over literals."""
+    if depth <= 0 or rng.random() < 0.2:
+        lit = ["f", rng.choice(namelist)]
+        return ["NOT", lit] if with_not and rng.random() < 0.3 else lit
+    return [rng.choice(["AND", "OR", "OR"]), gen_nnf(rng, namelist, depth - 1, with_not),
+            gen_nnf(rng, namelist, depth - 1, with_not)]
+
+
 def gen_arith(rng, namelist, depth, cfg):
     k = rng.random()
     if depth <= 0 or k < 0.45:
@@ -390,12 +402,18 @@ def gen_model(rng, frag, pool, cfg):
         if spec.get("root_term") and rng.random() < 0.1:
             expr = ["f", rng.choice(namelist)]
         else:
-            expr = gen_expr(rng, spec, namelist, rng.randint(1, cfg.get("ctc_depth", 2)), cfg)
+            if cfg.get("ctc_shape") == "nnf" and rng.random() < 0.7:
+                expr = gen_nnf(rng, namelist, rng.randint(1, cfg.get("ctc_depth", 2) + 1),
+                               "NOT" in spec["ops"])
+            else:
+                expr = gen_expr(rng, spec, namelist, rng.randint(1, cfg.get("ctc_depth", 2)), cfg)
             if expr[0] == "f":
                 expr = [rng.choice([o for o in spec["ops"] if o != "NOT"]), expr,
                         ["f", rng.choice(namelist)]]
         cname = "c%d" % i if rng.random() < 0.8 or not spec["ctc_names"] else \
             rng.choice(["Ctc %d" % i, "r-%d" % i, "ñ%d" % i])
+        if cfg.get("dup_ctc_names") and i > 0 and rng.random() < 0.5:
+            cname = ref["ctcs"][rng.randrange(len(ref["ctcs"]))]["n"]
         ref["ctcs"].append({"n": cname, "e": expr})
     return ref
 
@@ -403,7 +421,7 @@ def gen_model(rng, frag, pool, cfg):
 def default_cfg(rng, frag, tier="quick"):
     """Swarm configuration of one session: drawn once, recorded in the schedule."""
     spec = FRAGS[frag]
-    sizes = ["1", "s", "s", "m", "m"] + (["l"] if tier == "thorough" else [])
+    sizes = ["1", "s", "s", "m", "m", "l"] + (["l", "l"] if tier == "thorough" else [])
     cfg = {
         "size": rng.choice(sizes),
         "maxdepth": rng.choice([1, 2, 3, 4, 6]),
@@ -413,14 +431,17 @@ def default_cfg(rng, frag, tier="quick"):
         "p_fcard": rng.choice([0.0, 0.0, 0.25]),
         "p_attr": rng.choice([0.0, 0.0, 0.3, 0.7]),
         "p_nonlogical": rng.choice([0.0, 0.0, 0.3]),
-        "max_ctcs": rng.choice([0, 1, 3, 5]),
+        "max_ctcs": rng.choice([0, 1, 3, 5, 12]),
         "ctc_depth": rng.choice([1, 2, 3] + ([4, 5] if tier == "thorough" else [])),
-        "max_group": rng.choice([2, 3, 5]),
-        "max_rels": rng.choice([1, 2, 4]),
+        "max_group": rng.choice([2, 3, 5, 12]),
+        "max_rels": rng.choice([1, 2, 4, 11]),
         "p_deep": rng.choice([0.2, 0.5, 0.9]),
     }
     if frag == "uvl":
         cfg["dotted_refs"] = rng.random() < 0.5
+    if frag == "whole":
+        cfg["dup_ctc_names"] = rng.random() < 0.25
+    cfg["ctc_shape"] = rng.choice(["random", "random", "nnf"])
     k = rng.randint(1, len(spec["groups"]))
     cfg["group_kinds"] = rng.sample(spec["groups"], k)
     k = rng.randint(1, len(spec["ops"]))
